@@ -192,22 +192,40 @@ type readerCase struct {
 	Drains   []int   `json:"pool_audits_after_reads"` // record indices after which the pool was drained
 	DrainAll bool    `json:"pool_audit_after_every_read,omitempty"`
 	Second   bool    `json:"second_owner,omitempty"` // a second owner takes nodes from the pool between Reads and holds them
+	Direct   bool    `json:"direct_format_reader,omitempty"` // the FormatReader is driven directly (Read is called again after its terminal result)
 }
 
 // heldTree is a small tree a second owner built from pooled (or fresh) nodes between two Reads
 // of the reader under audit, with a snapshot of every field of every node.
 type heldTree struct {
-	nodes []*idr.Node
-	snap  []idr.Node
-	after int // built after this Read
+	nodes   []*idr.Node
+	snap    []idr.Node
+	after   int    // built after this Read
+	aliased string // set if the pool handed this owner a node that is already held
 }
 
+// heldNow: every node some second owner of this process holds; a create that returns one of them
+// again means the node was in the pool although it is owned (it was released twice, or released
+// by someone who did not own it)
+var heldNow = map[*idr.Node]bool{}
+
 func newHeldTree(tag string, after int) *heldTree {
-	root := idr.CreateNode(idr.ElementNode, tag)
-	h := &heldTree{nodes: []*idr.Node{root}, after: after}
+	h := &heldTree{after: after}
+	take := func(ty idr.NodeType, data string) *idr.Node {
+		n := idr.CreateNode(ty, data)
+		if heldNow[n] && h.aliased == "" {
+			h.aliased = fmt.Sprintf("CreateNode(%q) returned a node that an owner already holds (it carried data %q before): the node was pooled while owned - released twice, or released through a stale pointer", data, "?")
+		}
+		heldNow[n] = true
+		return n
+	}
+	root := take(idr.ElementNode, tag)
+	h.nodes = []*idr.Node{root}
 	for i := 0; i < 3; i++ {
-		c := idr.CreateNode(idr.TextNode, fmt.Sprintf("%s.%d", tag, i))
-		idr.AddChild(root, c)
+		c := take(idr.TextNode, fmt.Sprintf("%s.%d", tag, i))
+		if h.aliased == "" {
+			idr.AddChild(root, c)
+		}
 		h.nodes = append(h.nodes, c)
 	}
 	for _, n := range h.nodes {
@@ -241,25 +259,48 @@ func (h *heldTree) changed() (msg string) {
 // (after the reads listed in drains) and at the end.
 func auditTransform(sum *vh.Summary, cw *vh.CaseWriter, format, schema string, in []byte, kind string, drains map[int]bool, opt ...bool) {
 	drainAll, second := len(opt) > 0 && opt[0], len(opt) > 1 && opt[1]
-	s, err := omniparser.NewSchema("fx-"+format, strings.NewReader(schema))
-	if err != nil {
-		if second || drainAll {
-			sum.Hist("reader-special-schema-rejected") // e.g. a target xpath the schema validation refuses
+	direct := len(opt) > 2 && opt[2]
+	// next: the next record node (nil, err, continuable) - through Transform.Read / RawRecord, or, in
+	// direct mode, through the format's own FormatReader driven the way the ingester drives it
+	var next func() (*idr.Node, error, bool)
+	if direct {
+		next = openDirect(format, schema, in)
+		if next == nil {
+			sum.Hist("reader-direct-schema-rejected:" + format)
 			return
 		}
-		sum.Fail("fixture schema for "+format+" rejected by NewSchema", map[string]string{"format": format}, err.Error())
-		return
-	}
-	t, err := s.NewTransform("in", strings.NewReader(string(in)), &transformctx.Ctx{})
-	if err != nil {
-		return
+	} else {
+		s, err := omniparser.NewSchema("fx-"+format, strings.NewReader(schema))
+		if err != nil {
+			if second || drainAll || lenientSchema {
+				sum.Hist("reader-special-schema-rejected:" + format) // e.g. a target xpath the schema validation refuses
+				return
+			}
+			sum.Fail("fixture schema for "+format+" rejected by NewSchema", map[string]string{"format": format}, err.Error())
+			return
+		}
+		t, err := s.NewTransform("in", strings.NewReader(string(in)), &transformctx.Ctx{})
+		if err != nil {
+			return
+		}
+		next = func() (*idr.Node, error, bool) {
+			if _, err := t.Read(); err != nil {
+				return nil, err, errs.IsErrTransformFailed(err)
+			}
+			raw, err := t.RawRecord()
+			if err != nil {
+				return nil, nil, true
+			}
+			n, _ := raw.Raw().(*idr.Node)
+			return n, nil, true
+		}
 	}
 	var dl []int
 	for k := range drains {
 		dl = append(dl, k)
 	}
 	sort.Ints(dl)
-	rc := readerCase{Kind: "reader", Format: format, Schema: schema, InputHex: fmt.Sprintf("%x", in), Drains: dl, DrainAll: drainAll, Second: second}
+	rc := readerCase{Kind: "reader", Format: format, Schema: schema, InputHex: fmt.Sprintf("%x", in), Drains: dl, DrainAll: drainAll, Second: second, Direct: direct}
 	var held []*heldTree
 	heldPtr := map[*idr.Node]bool{}
 	// the second owner: re-audit everything it holds (any change = the reader wrote into a node it
@@ -275,6 +316,10 @@ func auditTransform(sum *vh.Summary, cw *vh.CaseWriter, format, schema string, i
 			}
 		}
 		h := newHeldTree(fmt.Sprintf("owner2-%d", after), after)
+		if h.aliased != "" && !*failed {
+			*failed = true
+			sum.Fail("a second owner acquiring nodes next to the "+format+" reader (after read "+fmt.Sprint(after)+"): "+h.aliased, rc, nil)
+		}
 		held = append(held, h)
 		for _, n := range h.nodes {
 			heldPtr[n] = true
@@ -311,6 +356,10 @@ func auditTransform(sum *vh.Summary, cw *vh.CaseWriter, format, schema string, i
 				return
 			}
 			seen[x] = true
+			if heldNow[x] {
+				sum.Fail("the node pool contains a node that another owner holds ("+when+"): the "+format+" reader released it twice or through a stale pointer", rc, nil)
+				return
+			}
 			if live[x] {
 				sum.Fail("the "+format+" reader released a node that the tree it handed out still reaches ("+when+")", rc, nil)
 				return
@@ -319,21 +368,16 @@ func auditTransform(sum *vh.Summary, cw *vh.CaseWriter, format, schema string, i
 		sum.Hist("reader-pool-audit")
 	}
 	for reads := 0; reads < 40; reads++ {
-		_, err := t.Read()
+		n, err, cont := next()
 		if err != nil {
-			if errs.IsErrTransformFailed(err) {
+			if cont {
 				secondOwner(reads, &failedSecond)
 				continue
 			}
 			ended = true
 			break // io.EOF or another terminal error
 		}
-		raw, err := t.RawRecord()
-		if err != nil {
-			continue
-		}
-		n, ok := raw.Raw().(*idr.Node)
-		if !ok || n == nil {
+		if n == nil {
 			continue
 		}
 		root := vh.Root(n)
@@ -349,7 +393,7 @@ func auditTransform(sum *vh.Summary, cw *vh.CaseWriter, format, schema string, i
 				bad = fmt.Sprintf("it reaches node %q, which the reader released earlier and a second owner has since acquired and holds", x.Data)
 			}
 		}
-		sum.Count(fmt.Sprintf("%s|%x|%d|%v", format, in, reads, second), false)
+		sum.Count(fmt.Sprintf("%s|%x|%d|%v|%v", format, in, reads, second, direct), false)
 		sum.Hist("reader-tree:" + format)
 		sum.Hist("reader-input:" + kind)
 		if bad != "" {
@@ -366,7 +410,8 @@ func auditTransform(sum *vh.Summary, cw *vh.CaseWriter, format, schema string, i
 				next: lab[x.NextSibling], ty: int(x.Type), data: x.Data, fs: fsTerm(x)}
 			recs = append(recs, r.coq())
 		}
-		if !drainAll && !second { // the same trees are sent to the model once
+		treeNo++
+		if !drainAll && !second && !direct && (!lenientSchema || treeNo%2 == 0) { // the same trees are sent to the model once; of the generated-schema runs every other tree
 			cw.Add(fmt.Sprintf("TCase (mkTCase %s %s)", vh.CoqList(recs), vh.CoqTree(root)),
 				map[string]interface{}{"kind": "reader-tree", "format": format, "schema": schema, "input_hex": rc.InputHex, "record_index": reads})
 		}
@@ -377,11 +422,55 @@ func auditTransform(sum *vh.Summary, cw *vh.CaseWriter, format, schema string, i
 		secondOwner(reads, &failedSecond)
 	}
 	secondOwner(-1, &failedSecond)
+	if ended {
+		// Read after a terminal result is legal and must not touch any node: someone else acquires
+		// nodes, then Read is called again, three times
+		for k := 0; k < 3; k++ {
+			extra := newHeldTree(fmt.Sprintf("after-end-%d", k), 1000+k)
+			if extra.aliased != "" && !failedSecond {
+				failedSecond = true
+				sum.Fail(fmt.Sprintf("after the terminal result of the %s reader and %d further Read call(s): %s", format, k, extra.aliased), rc, nil)
+			}
+			held = append(held, extra)
+			if n, err, _ := next(); err == nil && n != nil {
+				sum.Hist("reader-read-after-terminal-returned-a-record")
+			}
+			for _, h := range held {
+				if msg := h.changed(); msg != "" && !failedSecond {
+					failedSecond = true
+					sum.Fail(fmt.Sprintf("Read number %d after the terminal result of the %s reader modified nodes it does not own: %s", k+1, format, msg), rc, nil)
+				}
+			}
+		}
+	}
 	poolAudit("at the end")
+	for _, h := range everHeld {
+		if msg := h.changed(); msg != "" && !failedSecond {
+			failedSecond = true
+			sum.Fail("a "+format+" transform modified nodes that another owner acquired during an earlier transform: "+msg, rc, nil)
+		}
+	}
+	everHeld = append(everHeld, held...)
+	if len(everHeld) > 4000 {
+		for _, h := range everHeld[:len(everHeld)-4000] {
+			for _, n := range h.nodes {
+				delete(heldNow, n)
+			}
+		}
+		everHeld = everHeld[len(everHeld)-4000:]
+	}
 }
 
 // progressFile, when set, receives the transform about to be audited (see runLate).
 var progressFile string
+
+// lenientSchema: generated schemas (hierarchies, unusual targets) may be refused by validation
+var lenientSchema bool
+
+// everHeld: trees second owners took from the pool in EARLIER transforms of this process; they
+// stay held, and are re-audited at the end of every later transform (a reader that gives nodes
+// back twice, or writes into nodes it released, damages them)
+var everHeld []*heldTree
 
 // runLate runs the readers / misuse scripts / race part in a child process and merges what it
 // found.  If the child dies (the Go runtime cannot recover from a stack overflow), the
@@ -437,6 +526,9 @@ func runLate(o *vh.Opts, sum *vh.Summary, cw *vh.CaseWriter) {
 	merge()
 }
 
+var hierCount = 120
+var treeNo int
+
 func readerTrees(r *vh.Rng, sum *vh.Summary, cw *vh.CaseWriter, perFormat int) {
 	idr.VerifResetNodePool()
 	for _, fx := range vh.Fixtures() {
@@ -449,13 +541,20 @@ func readerTrees(r *vh.Rng, sum *vh.Summary, cw *vh.CaseWriter, perFormat int) {
 				}
 			}
 			auditTransform(sum, cw, fx.Format, fx.Schema, in, kind, drains)
+			if k%3 == 1 {
+				// the format's reader driven directly, with Read called again after its terminal result
+				auditTransform(sum, cw, fx.Format, fx.Schema, in, kind+"+direct", nil, r.Chance(0.5), true, true)
+			}
 			if k%3 == 0 {
 				// the same input again with a second owner taking pooled nodes between the Reads
 				auditTransform(sum, cw, fx.Format, fx.Schema, in, kind+"+second-owner", nil, r.Chance(0.5), true)
 			}
 		}
 	}
+	lenientSchema = true
 	specialReaderInputs(r, sum, cw)
+	hierarchyReaders(r, sum, cw, hierCount)
+	lenientSchema = false
 }
 
 // ---- racing acquisitions ------------------------------------------------------------------------
@@ -649,7 +748,7 @@ func main() {
 	}
 	// ---- recycle soak: the same node(s) recycled millions of times ----
 	runSoak := func(only *soakCase) {
-		single, tree := 1<<24+1<<16, 1<<24+1<<16
+		single, tree := 1<<24+1<<16, 1<<22
 		if o.Tier == "thorough" {
 			single, tree = 1<<26, 1<<25
 		}
@@ -712,7 +811,7 @@ func main() {
 		}
 		idr.VerifResetNodePool()
 		progressFile = filepath.Join(o.Out, "current.json")
-		auditTransform(sum, cw, rc.Format, rc.Schema, in, "replay", drains, rc.DrainAll, rc.Second)
+		auditTransform(sum, cw, rc.Format, rc.Schema, in, "replay", drains, rc.DrainAll, rc.Second, rc.Direct)
 		cw.Flush()
 		sum.CaseFiles = cw.Files
 		sum.Write(o)
@@ -771,7 +870,7 @@ func main() {
 		}
 	} else {
 		total := o.Count(4000, 200000)
-		modelled := 450
+		modelled := 350
 		if o.Tier == "thorough" {
 			modelled = 9000
 		}
